@@ -1,15 +1,275 @@
 /-
-  CorgiSpec.Oracle — evaluates the *specification* of a command on the operands the model sees,
-  so that every run also compares implementation and specification directly.
+  CorgiSpec.Oracle — evaluates the *specification* of every command on the operands the model
+  sees, so that each run also compares implementation and specification directly, and keeps the
+  reference gradients (forward mode, `CorgiSpec.Dual`) accumulated since the last clear.
+  `none` = the specification says nothing about this output (the oracle abstains).
 -/
 import CorgiModel.Step
+import CorgiSpec.Dual
 
 namespace Corgi
 
-abbrev Oracle (S : Type) := State S → Cmd S → Out S → Option String
+/-- Reference state: the gradient every node should hold (`none` entry = "no gradient"),
+    and the nodes about which the oracle abstains. -/
+structure OState (S : Type) where
+  eg : List (Nat × Tensor S) := []
+  unknown : List Nat := []
 
 variable {S : Type} [Add S] [Mul S] [Neg S] [Sub S] [ScalarOps S] [BEq S]
 
-def oracle (_render : S → String) : Oracle S := fun _ _ _ => none
+def OState.get (o : OState S) (n : Nat) : Option (Option (Tensor S)) :=
+  if o.unknown.contains n then none
+  else some ((o.eg.find? (·.1 == n)).map (·.2))
+
+def OState.set (o : OState S) (n : Nat) (g : Option (Tensor S)) : OState S :=
+  let eg := o.eg.filter (·.1 != n)
+  { o with eg := match g with | some g => (n, g) :: eg | none => eg }
+
+def OState.forget (o : OState S) (n : Nat) : OState S := { o with unknown := n :: o.unknown }
+
+def addSame (a b : Tensor S) : Tensor S := ⟨a.dims, List.zipWith (· + ·) a.vals b.vals⟩
+
+/-- expected effect of one backward pass on the reference gradients -/
+def OState.pass (o : OState S) (σ : State S) (h : Handle) (seed : Option (Tensor S)) : OState S :=
+  let reach := reachable σ h.node
+  let seedT : Tensor S := match seed with
+    | some s => s
+    | none => ⟨h.dims, List.replicate (prod h.dims) one⟩
+  (List.range σ.nodes.size).foldl (fun (o : OState S) n =>
+    if !(reach.getD n false) then o
+    else match σ.nodes[n]? with
+      | none => o
+      | some r =>
+        -- which handles reach this node, and do they agree on `keep`?
+        let slots : List Handle := (List.range σ.nodes.size).flatMap (fun m =>
+          if reach.getD m false then
+            match σ.nodes[m]? with
+            | some rm => rm.kids.filter (fun k => k.tracked && k.node == n)
+            | none => []
+          else [])
+        let keeps := (if n == h.node then [h.keep] else []) ++ slots.map (·.keep)
+        let stores := r.kids.isEmpty || keeps.all id
+        let ambiguous := !r.kids.isEmpty && keeps.any id && !(keeps.all id)
+        if ambiguous then o.forget n
+        else if !stores then o
+        else match refGrad σ reach h.node n seedT with
+          | none => o.forget n
+          | some d =>
+            match o.get n with
+            | none => o
+            | some (some g) => o.set n (some (addSame g d))
+            | some none => o.set n (some d)) o
+
+def anyTracked (hs : List Handle) : Bool := hs.any (·.tracked)
+
+def expectT (t : Tensor S) (tr : Bool) : Option (Out S) := some (.tensor t tr)
+
+def wfDims (t : Tensor S) : Bool := t.dims.all (· ≥ 1) && prod t.dims == t.vals.length
+
+/-- softmax over the last dimension -/
+def specSoftmax (a : Tensor S) : Tensor S :=
+  let last := a.dims.getLast?.getD 1
+  ⟨a.dims, (List.range a.vals.length).map (fun i =>
+    let row := (a.vals.drop (i / last * last)).take last
+    ScalarOps.div (ScalarOps.exp (a.vals.getD i zero)) (sumList (row.map ScalarOps.exp)))⟩
+
+def specAct (act : Act) (t : Tensor S) : Tensor S :=
+  match act with
+  | .none => t
+  | .relu => mapT (fun x => if ScalarOps.pos x then x else zero) t
+  | .sigmoid => mapT (fun x => ScalarOps.div one (one + ScalarOps.exp (-x))) t
+  | .softmax => specSoftmax t
+
+/-- matmul per C05; `none` = abstain, `some none` = must refuse -/
+def specMatmulCmd (a : Tensor S) (ta : Bool) (b : Tensor S) (tb : Bool) (c : Option (Tensor S)) :
+    Option (Option (Tensor S)) :=
+  let ra := a.dims.length
+  let rb := b.dims.length
+  if ra ≥ 2 && rb ≥ 2 then
+    let a2 := a.dims.drop (ra - 2)
+    let b2 := b.dims.drop (rb - 2)
+    let m := if ta then a2.getD 1 0 else a2.getD 0 0
+    let ka := if ta then a2.getD 0 0 else a2.getD 1 0
+    let kb := if tb then b2.getD 1 0 else b2.getD 0 0
+    let n := if tb then b2.getD 0 0 else b2.getD 1 0
+    if !(Compat (a.dims.take (ra - 2)) (b.dims.take (rb - 2))) || ka != kb then some none
+    else match c with
+      | none => some (some (specMatmul a ta b tb none))
+      | some c =>
+        if c.dims == [n] || c.dims == [m, n] || c.dims == [1, n] || c.dims == [1] then
+          some (some (specMatmul a ta b tb (some c)))
+        else none
+  else if ra == 1 && rb ≥ 2 && !ta && c.isNone then
+    -- a rank-1 operand next to a rank ≥ 2 operand behaves as a one-row matrix
+    let kb := if tb then b.dims.getD (rb - 1) 0 else b.dims.getD (rb - 2) 0
+    if a.dims != [kb] then some none
+    else some (some (specMatmul ⟨[1, kb], a.vals⟩ false b tb none))
+  else if ra == 1 && rb == 1 && !ta && !tb && c.isNone then
+    -- two untransposed rank-1 operands give their dot product
+    if a.dims != b.dims then some none
+    else some (some ⟨[1], [sumList (List.zipWith (· * ·) a.vals b.vals)]⟩)
+  else none
+
+def specConvCmd (img flt : Tensor S) (sr sc : Nat) : Option (Option (Tensor S)) :=
+  let n := img.dims.length
+  if n < 3 || flt.dims.length < 3 then some none
+  else if flt.dims.length != 4 then none
+  else
+    let depth := img.dims.getD (n - 3) 0
+    let rows := img.dims.getD (n - 2) 0
+    let cols := img.dims.getD (n - 1) 0
+    if flt.dims.getD 1 0 != depth || flt.dims.getD 2 0 > rows || flt.dims.getD 3 0 > cols || sr == 0 || sc == 0 then some none
+    else some (some (specConv img flt sr sc))
+
+def specEwiseCmd (f : S → S → S) (a b : Tensor S) : Option (Tensor S) :=
+  if Compat a.dims b.dims then some (specEwise f a b) else none
+
+def outOf (r : Option (Option (Tensor S))) (tr : Bool) : Option (Out S) :=
+  match r with
+  | none => none
+  | some none => some (.panic .incompatible)
+  | some (some t) => some (.tensor t tr)
+
+def specLayer (σ : State S) (l : Layer) (x : Tensor S) : Option (Option (Tensor S)) :=
+  match l with
+  | .dense w b act =>
+    match specMatmulCmd x false (σ.tensorOf w) true none with
+    | some (some y) =>
+      -- `x Wᵀ + b`, one bias per output column
+      some (some (specAct act (specEwise (· + ·) y (σ.tensorOf b))))
+    | r => r
+  | .conv f b sr sc act =>
+    match specConvCmd x (σ.tensorOf f) sr sc with
+    | some (some y) => some (some (specAct act (specEwise (· + ·) y (σ.tensorOf b))))
+    | r => r
+
+def specCost (c : Cost) (output target : Tensor S) : Option (Tensor S) :=
+  match c with
+  | .mse =>
+    (specEwiseCmd (fun t o => (t - o) * (t - o) * ScalarOps.div one (ScalarOps.ofNat (prod output.dims))) target output)
+  | .xent =>
+    (specEwiseCmd (fun t o => (-t) * ScalarOps.ln o * ScalarOps.div one (ScalarOps.ofNat (output.dims.getD 0 1))) target output)
+
+def sgdSpec (lr : S) (o : OState S) (σ : State S) (ps : List Handle) : Option (List (Tensor S × Option (Tensor S))) :=
+  ps.mapM (fun p =>
+    match o.get p.node with
+    | none => none
+    | some none => some (σ.tensorOf p, none)
+    | some (some g) =>
+      let t := σ.tensorOf p
+      some (⟨t.dims, List.zipWith (fun x gi => x - lr * gi) t.vals g.vals⟩, none))
+
+/-- One oracle step: the expected output (if the specification determines it) and the new
+    reference state.  `σ` is the state before the command, `σ'` after, `out` the model's output
+    (used only for the parts the specification leaves open). -/
+def oracleStep (o : OState S) (σ : State S) (c : Cmd S) (out : Out S) (σ' : State S) : OState S × Option (Out S) :=
+  let T := fun (v : String) => (lookup σ.env v).map σ.tensorOf
+  let H := fun (v : String) => lookup σ.env v
+  let tr2 := fun (a b : String) => match H a, H b with
+    | some x, some y => x.tracked || y.tracked
+    | _, _ => false
+  let tr1 := fun (a : String) => match H a with | some x => x.tracked | none => false
+  let ew := fun (f : S → S → S) (a b : String) => match T a, T b with
+    | some x, some y => (match specEwiseCmd f x y with
+        | some t => (o, expectT t (tr2 a b))
+        | none => (o, some (.panic .incompatible)))
+    | _, _ => (o, none)
+  let un := fun (f : S → S) (a : String) => match T a with
+    | some x => (o, expectT (mapT f x) (tr1 a))
+    | none => (o, none)
+  match c with
+  | .add _ a b => ew (· + ·) a b
+  | .sub _ a b => ew (· - ·) a b
+  | .mul _ a b => ew (· * ·) a b
+  | .div _ a b => ew ScalarOps.div a b
+  | .axpy _ s a b => ew (fun x y => x * s + y) a b
+  | .neg _ a => un (fun x => -x) a
+  | .scale _ a s => un (· * s) a
+  | .powf _ a e => un (fun x => ScalarOps.powf x e) a
+  | .ln _ a => un ScalarOps.ln a
+  | .exp _ a => un ScalarOps.exp a
+  | .recip _ a => un (fun x => ScalarOps.div one x) a
+  | .relu _ a => un (fun x => if ScalarOps.pos x then x else zero) a
+  | .sigmoid _ a => un (fun x => ScalarOps.div one (one + ScalarOps.exp (-x))) a
+  | .softmax _ a => match T a with
+    | some x => (o, expectT (specSoftmax x) (tr1 a))
+    | none => (o, none)
+  | .sum _ a k => match T a with
+    | some x => if k ≤ x.dims.length then (o, expectT (specSum x k) (tr1 a)) else (o, none)
+    | none => (o, none)
+  | .sumall a => match T a with
+    | some x => (o, some (.scalar (sumList x.vals)))
+    | none => (o, none)
+  | .reshape _ a dims => match T a with
+    | some x =>
+      if dims.all (· ≥ 1) && prod dims == x.vals.length then (o, expectT ⟨dims, x.vals⟩ (tr1 a))
+      else (o, some (.panic .countMismatch))
+    | none => (o, none)
+  | .matmul _ a ta b tb cn => match T a, T b with
+    | some x, some y =>
+      let ct := cn.bind T
+      let tr := tr2 a b || (match cn with | some cn => tr1 cn | none => false)
+      (o, outOf (specMatmulCmd x ta y tb ct) tr)
+    | _, _ => (o, none)
+  | .conv _ a f sr sc => match T a, T f with
+    | some x, some y => (o, outOf (specConvCmd x y sr sc) (tr2 a f))
+    | _, _ => (o, none)
+  | .lfwd _ l a => match lookup σ.layers l, T a with
+    | some lay, some x => (o, outOf (specLayer σ lay x) true)
+    | _, _ => (o, none)
+  | .fwd _ m a => match lookup σ.models m, T a with
+    | some mr, some x =>
+      let r := mr.layers.foldl (fun (acc : Option (Option (Tensor S))) l =>
+        match acc, lookup σ.layers l with
+        | some (some t), some lay => specLayer σ lay t
+        | _, _ => none) (some (some x))
+      (o, outOf r true)
+    | _, _ => (o, none)
+  | .backward v seed => match H v, out with
+    | some h, .ok => (o.pass σ h (seed.bind T), some .ok)
+    | _, _ => (o, none)
+  | .bwd m t => match lookup σ.models m, T t, out with
+    | some mr, some target, .scalar _ =>
+      -- the loss is the sum of the cost array; the pass runs on the cost node, which is the
+      -- newest node of the state after the command
+      (match mr.output with
+       | some oh =>
+         let loss := (specCost mr.cost (σ.tensorOf oh) target).map (fun t => Out.scalar (sumList t.vals))
+         let errNode := σ'.nodes.size - 1
+         let eh : Handle := ⟨(σ'.nodes[errNode]?.map (·.dims)).getD [], 0, errNode, true, true⟩
+         -- reference gradients are taken on the graph as it was built (before the pass ran,
+         -- the graph part of the state is identical)
+         (o.pass σ' eh none, loss)
+       | none => (o, none))
+    | _, _, _ => (o, none)
+  | .grad v => match H v with
+    | some h => (match o.get h.node with
+        | some (some g) => (o, some (.tensor g false))
+        | some none => (o, some .noneOut)
+        | none => (o, none))
+    | none => (o, none)
+  | .cleargrad v => match H v with
+    | some h => ({ (o.set h.node none) with unknown := o.unknown.filter (· != h.node) }, none)
+    | none => (o, none)
+  | .setgrad v w => match H v, T w with
+    | some h, some g => ({ (o.set h.node (some g)) with unknown := o.unknown.filter (· != h.node) }, none)
+    | _, _ => (o, none)
+  | .gdupdate lr vs =>
+    let hs := vs.filterMap H
+    let exp := sgdSpec lr o σ hs
+    -- a parameter that held a gradient is replaced by a fresh array; its node's gradient is taken
+    let o' := hs.foldl (fun (o : OState S) h => o.set h.node none) o
+    (o', exp.map (fun ps => .params ps))
+  | .update m => match lookup σ.models m with
+    | some mr =>
+      let hs := modelParams σ mr.layers
+      let exp := sgdSpec mr.lr o σ hs
+      let o' := hs.foldl (fun (o : OState S) h => o.set h.node none) o
+      (o', exp.map (fun ps => .params ps))
+    | none => (o, none)
+  | .probe _ => match out with
+    | .probe _ _ tr keep kids rc => (o, some (.probe 0 false tr keep kids rc))
+    | _ => (o, none)
+  | _ => (o, none)
 
 end Corgi
